@@ -38,6 +38,16 @@ Theorem C13_resume_single_any_wait : forall tol wait script, (0 < tol)%N -> gent
 Proof. intros tol wait script H G. exact (gentle1_resumes tol wait H script G). Qed.
 Print Assumptions C13_resume_single_any_wait.
 
+(* ... and with lulls: the source may take any time, also far longer than the tolerance, to produce a chunk, as long
+   as it reports no end-of-file or timeout meanwhile.  Every interruption is judged by its own clock, started at its
+   own first end-of-file; time that passed while data was flowing, and earlier interruptions, do not count. *)
+Theorem C13_resume_with_lulls : forall tol wait script, (0 < tol)%N -> (wait <= tol)%N -> gentle_lull script ->
+  forall s, r_first s = None ->
+  exists s', run_script tol wait script s = (s', StopNone, []) /\ r_out s' = r_out s ++ data_of script /\
+             r_first s' = None.
+Proof. intros tol wait script H1 H2 G. exact (gentle_lull_resumes tol wait H1 H2 script G). Qed.
+Print Assumptions C13_resume_with_lulls.
+
 (* Tolerance zero: the first end-of-file or timeout stops the loop; another read error always
    does; the data received so far has been forwarded. *)
 Theorem C13_stop_zero_or_error : forall wait pre rest e, (e = REof \/ e = RTimeout \/ e = ROther) ->
